@@ -26,7 +26,10 @@ TEXT = {
             "for both predictors.", "DESIGN.md section 3 C03"),
     "C04": ("Speculation bound (first simulation of f needs f - confirmed <= window; load depth <= window) and the "
             "lockstep contract (no save/load, no Predicted, stall leaves the frame) as TLA+ predicates; exhaustive for "
-            "windows 0,1,2 in the model, evaluated on real starvation runs for windows 0..12.", "DESIGN.md section 3 C04"),
+            "windows 0,1,2 in the model, evaluated on real starvation runs for windows 0..12.  The waiting API "
+            "(advance_frame_with_wait / _timeout) is part of the model (P2P_AdvanceFrameWait, System.TickW with an arrival "
+            "at either yield), of the TLC schedules replayed on real sessions and of random lockstep runs with "
+            "Trace_Sys conformance.", "DESIGN.md section 3 C04"),
     "C05": ("MC_Link.tla (two endpoints built from Protocol.tla's operators, lossy/duplicating/reordering link, fair "
             "retransmission) is checked for stream integrity and for the liveness property NoWedge; the bounded-"
             "exhaustive fault space (every set of <=K faults on the first M packets, enumerated by TLC from "
@@ -35,12 +38,16 @@ TEXT = {
     "C06": ("Spectator monitor in TLA+ (each frame handed to a spectator = owner-side truth / Disconnected beyond the "
             "host's cut-off, gapless from 0, never beyond the host's confirmed frame, catch-up count rule, "
             "SpectatorTooFarBehind iff the ring was overrun) evaluated by TLC on real host+spectator traces with "
-            "pauses, lag, loss and host-side drops; twin runs with/without spectators compared by Trace_Twin.tla.",
+            "pauses, lag, loss and host-side drops and on a systematic sweep of pause lengths across the 60-slot ring; "
+            "exhaustive System.tla models of host+spectator (with drops) and two peers+spectator; twin runs "
+            "with/without spectators compared by Trace_Twin.tla.",
             "DESIGN.md section 3 C06"),
     "C07": ("Timing predicates over the virtual clock (NetworkInterrupted / Disconnected neither early nor late, once) "
             "and final-timeline predicates (real inputs up to the cut-off, default+Disconnected after it) evaluated by "
             "TLC on real two-peer traces with kills at random frames, packets in flight, explicit disconnect_player, "
-            "rollback and lockstep, spectators.", "DESIGN.md section 3 C07"),
+            "rollback and lockstep, spectators, explicitly disconnected spectators; Disconnected is final and the "
+            "cut-off never rises after the drop; exhaustive models with a dying peer and with a stepped clock "
+            "(interruption / time-out order).", "DESIGN.md section 3 C07"),
     "C09": ("No DesyncDetected in any behaviour of the model (exhaustive, desync interval 1-2) nor in any real trace of a "
             "deterministic game (intervals 1..12); a deliberately diverging game is detected by every peer within 3 "
             "intervals with the checksums the games really saved (TLA+ predicates over the logged events).",
@@ -49,7 +56,8 @@ TEXT = {
             "sessions (Trace_Sys conformance) and random runs; the TLA+ monitor demands no panic, coherent survivor "
             "timelines and one common cut-off.  The genuine defect of the pinned library in the class 'survivors hold "
             "different amounts of the dropped player's input' is a known finding matched by a monitor-computed history "
-            "class; violations outside that class are reported.", "DESIGN.md section 3 C10"),
+            "class; violations outside that class are reported (equal-view families - reliable FIFO schedules and "
+            "kill + explicit disconnect + gossip runs - stay strict).", "DESIGN.md section 3 C10"),
     "C11": ("Owner-side truth is defined by the documented delay semantics in TLA+ (Props.tla Submit/SetDelay); System.tla "
             "with run-time set_input_delay is explored exhaustively (reliable FIFO network, delays {0,1,2}, 1-2 local "
             "players) with the monitor as invariant, two regression runs with the pinned pre-fix behaviour must fail; TLC "
@@ -59,13 +67,16 @@ TEXT = {
             "3) goes through the real decode and TLC validates each record against SpecDecode (no panic, bounded "
             "allocation); forged packets of all listed kinds, derived from genuine ones, are injected at random points "
             "of real runs (handshake, running, after a disconnect) and the TLA+ monitor demands delivered inputs = "
-            "owner-side truth, intact event automata and no panic; Trace_Twin.tla compares with the unforged twin.",
+            "owner-side truth, intact event automata and no panic; packets of every kind with a foreign magic number "
+            "arrive during silences and after a death while the exact timing predicates must hold as if they did not "
+            "exist (connection state unchanged); Trace_Twin.tla compares with the unforged twin.",
             "DESIGN.md section 3 C08"),
     "C12": ("MC_Handshake.tla (Protocol.tla operators, loss/dup/reorder/stray replies): Running iff 5 matched round "
             "trips, event word well formed, liveness; on real traces the TLA+ monitor runs a per-address event automaton, "
             "counts matched request/reply round trips from the packets, relates Running/NotSynchronized to them, times "
             "NetworkInterrupted/Disconnected against the virtual clock (silences notify/timeout -220..+150 ms), "
-            "bounds the event queue in never-drained sessions and forbids interruptions for poll-only pairs.",
+            "bounds the event queue in never-drained sessions and forbids interruptions for poll-only pairs; an "
+            "exhaustive System.tla model with a stepped clock and packet drops has the same predicates as invariant.",
             "DESIGN.md section 3 C12"),
     "C14": ("Codec.tla transcribes the codec; MC_Codec checks RoundTrip/Total/EncodeValid exhaustively on small alphabets; "
             "the real codec is run on every decoder input up to 2 bytes (thorough: 3) and on the small exhaustive "
@@ -82,18 +93,18 @@ TEXT = {
             "call sequence up to 3 (thorough 4) calls over small domains and each (configuration, next call) is replayed "
             "on the real SessionBuilder, returned sessions are exercised under catch_unwind; run-time misuse calls carry "
             "their documented result as expectation judged by the TLA+ monitor, Trace_Twin.tla shows the behaviour is "
-            "unchanged.", "DESIGN.md section 3 C16"),
+            "unchanged; SyncTestSession misuse is replayed through SyncTest.tla.", "DESIGN.md section 3 C16"),
     "C17": ("The specification is deterministic in (API calls, packets per link, clock) and iterates handles/endpoints in "
             "ascending order; every plan and TLC-generated schedule is executed several times in one process (fresh hash "
             "states, nonces, magics) and Trace_Rep.tla demands identical request lists, states and per-address event "
-            "sequences across the repetitions; Trace_Sys conformance of the same schedules shows each run is THE "
+            "sequences across the repetitions, and identical results of the public handle getters; Trace_Sys conformance of the same schedules shows each run is THE "
             "behaviour of the specification.", "DESIGN.md section 3 C17"),
     "C18": ("Buffer bounds as TLA+ predicates over the sizes read through the hook after every call (Monitor.tla BufViol), "
             "evaluated by TLC on long real runs (3000-20000 frames) of all topologies, all-local sessions, never-drained "
             "sessions and dying spectators; the link model's history bound is an invariant of MC_Link.",
             "DESIGN.md section 3 C18"),
     "C15": ("The recommendation gate is a state-machine predicate on every drained WaitRecommendation; TimeSync.tla "
-            "transcribes the window arithmetic and TLC validates records of the real window against it; the closed loop "
+            "transcribes the window arithmetic, F32.tla gives the code's f32 average as an exact integer function and TLC demands equality with records of the real window; network_stats results of random runs are compared with the specification (Trace_Sys); the closed loop "
             "(two peers, constant lead k in -7..7, latency 0..100 ms, fps 30/60) is executed on real sessions under the "
             "virtual clock and TLA+ predicates compare frames_ahead with the real lead, the two peers' values with each "
             "other, ping with 2L and the local/remote frames-behind figures.  Numeric accuracy is at the edge of the "
